@@ -45,6 +45,7 @@ class DC:
         self.hosts = set(hosts) if hosts else None
         self.transcript: t.List[dict] = []
         self.getkey_calls: t.List[t.Tuple[bytes, t.Optional[uuid.UUID], int, int, int]] = []
+        self.returned: t.List[t.Tuple[uuid.UUID, bytes, t.Tuple[int, int, int], bool]] = []  # (root key, SD, position returned, seed keys included)
         self.conns: t.List["Conn"] = []
         # fault / deviation knobs
         self.epm_stub: t.Optional[bytes] = None  # replaces the ept_map reply stub
@@ -102,6 +103,7 @@ class DC:
             return None, 0x80070057
         else:
             pos = self.returned_position((l0, l1, l2))
+        self.returned.append((rk.rkid, sd, pos, self.authorised))
         env = gkdi.server_envelope(rk, sd, pos[0], pos[1], pos[2], authorised=self.authorised, domain=self.domain, forest=self.forest, with_l2_at_31=self.l2_at_31)
         if self.envelope_override:
             env = self.envelope_override(env)
